@@ -280,6 +280,51 @@ Definition udp_parse (min_len : N) (d : list byte) : option (N * list byte * N *
       else Some (atyp, sub 4 16 d, de16 (sub 20 2 d), skipn 22 d)
     else None.                                                     (* "unsupported address type" *)
 
+(* parseUDPHeader again, with Go's indexing made explicit: data[i] and data[a:b] panic ("index out of range",
+   "slice bounds out of range") when out of range.  UPanic is the run-time panic; Proofs/Socks.udp_parse_checked_spec
+   shows it is unreachable when the first length check is at least 4. *)
+Definition idx (i : N) (d : list byte) : option byte :=
+  if i <? lenN d then Some (byte_at (N.to_nat i) d) else None.
+Definition slc (a b : N) (d : list byte) : option (list byte) :=
+  if (a <=? b) && (b <=? lenN d) then Some (sub a (b - a) d) else None.
+Inductive upres := UPanic | UDrop | UOk (atyp : N) (addr : list byte) (port : N) (payload : list byte).
+
+Definition udp_finish (atyp : N) (a pb pl : option (list byte)) : upres :=
+  match a, pb, pl with
+  | Some a', Some pb', Some pl' => UOk atyp a' (de16 pb') pl'
+  | _, _, _ => UPanic
+  end.
+
+Definition udp_parse_checked (min_len : N) (d : list byte) : upres :=
+  if lenN d <? min_len then UDrop else
+  match idx 2 d with
+  | None => UPanic
+  | Some frag =>
+    if negb (frag =? 0) then UDrop else
+    match idx 3 d with
+    | None => UPanic
+    | Some atyp =>
+      if atyp =? ATYP_V4 then
+        if lenN d <? 10 then UDrop
+        else udp_finish atyp (slc 4 8 d) (slc 8 10 d) (slc 10 (lenN d) d)
+      else if atyp =? ATYP_DOMAIN then
+        if lenN d <? 5 then UDrop else
+        match idx 4 d with
+        | None => UPanic
+        | Some dl =>
+          if lenN d <? 5 + dl + 2 then UDrop
+          else udp_finish atyp (slc 5 (5 + dl) d) (slc (5 + dl) (5 + dl + 2) d) (slc (5 + dl + 2) (lenN d) d)
+        end
+      else if atyp =? ATYP_V6 then
+        if lenN d <? 22 then UDrop
+        else udp_finish atyp (slc 4 20 d) (slc 20 22 d) (slc 22 (lenN d) d)
+      else UDrop
+    end
+  end.
+
+Definition upres_of (r : option (N * list byte * N * list byte)) : upres :=
+  match r with Some (t, a, p, pl) => UOk t a p pl | None => UDrop end.
+
 Definition udp_min_current : N := 4.
 Definition udp_min_pinned : N := 10.
 
